@@ -179,6 +179,7 @@ def run(tier, seed, replay=None):
     )
     relative_resolution(chk)
     names_in_declarations(chk, tier)
+    identifiers_on_the_command_line(chk, tier)
     chk.coverage["distribution"]["length"] = {str(k): v for k, v in sorted(lens.items())}
 
     if chk.coq.model_ok:
@@ -254,6 +255,30 @@ def names_in_declarations(chk, tier):
             if accepted is not want:
                 chk.violation("impl-violation", "%s declared with name %r was %s, the documented grammar %s it" % (form, nm, "accepted" if accepted is True else ("rejected" if accepted is False else accepted), "accepts" if want else "rejects"),
                               {"input": {"part": "declared-names", "form": form, "string": nm}, "impl_observation": accepted, "oracle_verdict": want}, match_key={"declared": form}, size=len(nm))
+
+
+def identifiers_on_the_command_line(chk, tier):
+    """the grammar at the user-facing entry points: a string given to `cond run --check` / `cond where -f` is accepted iff
+    the documented identifier grammar (prefix optional there) accepts it -- look-alikes padded with white space or control
+    characters included"""
+    import implrun
+
+    root = implrun.make_project({"COND": 'run_command(name="ok", run="true")\n', "p/COND": 'run_command(name="t", run="true")\n'})
+    pads = ["\n", " ", "\t", "\r", "\x0b", "\x0c", "\x1c", "\x85", "\xa0", "\u2003"]
+    cands = ["//:ok", ":ok", "//p:t", "p:t"]
+    cands += ["//:ok" + c for c in pads[: (4 if tier == "quick" else len(pads))]] + [c + "//:ok" for c in pads[: (3 if tier == "quick" else len(pads))]]
+    cands += ["//p:t" + pads[0], " p:t", "//p:t ", "//:ok\n\n", "//:o k", "//:", "ok", "//p/:t", "//p//:t"]
+    for s in cands:
+        want = doc_ident(s, False) is not None
+        for argv in (["run", "--check", s], ["where", "-f", s]):
+            r = implrun.run_cond(argv, root, timeout=60)
+            chk.coverage["evaluations"] += 1
+            chk.count("cli-identifiers", "valid" if want else "invalid")
+            accepted = r.code == 0
+            if accepted != bool(want):
+                chk.violation("impl-violation", "`cond %s %r` was %s, the documented identifier grammar %s the string" % (" ".join(argv[:-1]), s, "accepted" if accepted else "rejected", "accepts" if want else "rejects"),
+                              {"input": {"part": "cli-identifiers", "string": s, "argv": argv}, "impl_observation": {"exit": r.code, "stderr": implrun.strip_ansi(r.err)[-300:]}, "oracle_verdict": bool(want)},
+                              match_key={"cli-identifier": argv[0]}, size=len(s))
 
 
 def relative_resolution(chk):
